@@ -79,6 +79,7 @@ type zzvSched struct {
 	wgReq   []*protocol.MapWGReq
 	lateAll bool
 	cur     *zzvWf
+	trace   []uint64
 }
 
 func (e *zzvSched) word(addr uint64) uint32 {
@@ -383,8 +384,33 @@ func (e *zzvSched) deliver(lateToo bool) bool {
 // barriers / load-wait-use-end) with a symbolic s_waitcnt immediate; each
 // load's reply is early or as late as possible; the scheduler's barrier
 // buffer holds 16 or 1 entries.
-func VerifSchedule() {
+func VerifSchedule() { zzvScheduleRun(&zzvDraw{}) }
+
+// zzvDraw: the environment decisions of one run; recorded on the first run so
+// that a second run (C05: same scenario under permuted map orders) can repeat
+// them.
+type zzvDraw struct {
+	vals   []uint64
+	replay bool
+	pos    int
+}
+
+func (d *zzvDraw) next(fresh func() uint64) uint64 {
+	if d.replay {
+		v := d.vals[d.pos]
+		d.pos++
+		return v
+	}
+	v := fresh()
+	d.vals = append(d.vals, v)
+	return v
+}
+func (d *zzvDraw) Choice(n int) int { return int(d.next(func() uint64 { return uint64(verif.Choice(n)) })) }
+func (d *zzvDraw) U16() uint16      { return uint16(d.next(func() uint64 { return uint64(verif.U16()) })) }
+
+func zzvScheduleRun(dr *zzvDraw) []uint64 {
 	e := &zzvSched{memw: map[uint64]uint32{}}
+	oneSIMD := verif.Param("oneSIMD", 0) == 1
 	engine := simstub.NewEngine()
 	comp := simstub.NewComp("Mem")
 	imemPort := sim.NewPort(comp, 4, 4, "IMem")
@@ -400,17 +426,17 @@ func VerifSchedule() {
 	}
 	// the barrier buffer is shared by all work-groups of the unit: 16 free
 	// entries, one, or none (filled by other work-groups)
-	cu.Scheduler.(*SchedulerImpl).barrierBufferSize = []int{16, 1, 0}[verif.Choice(3)]
+	cu.Scheduler.(*SchedulerImpl).barrierBufferSize = []int{16, 1, 0}[dr.Choice(3)]
 	e.lateAll = verif.Param("lateonly", 0) == 1
 
-	nWG := 1 + verif.Choice(verif.Param("maxWG", 2))
+	nWG := 1 + dr.Choice(verif.Param("maxWG", 2))
 	maxWf := verif.Param("maxWf", 3)
 	ntmpl := verif.Param("templates", 6)
 	maxLoad := verif.Param("loadwfs", 1)
 	e.imem = make([]byte, int(zzvIStep)*nWG*maxWf)
 	co := &insts.KernelCodeObject{KernelCodeObjectMeta: &insts.KernelCodeObjectMeta{WFSgprCount: 16, WIVgprCount: 16}}
 	for g := 0; g < nWG; g++ {
-		nWf := 1 + verif.Choice(maxWf)
+		nWf := 1 + dr.Choice(maxWf)
 		loading := 0
 		pkt := &kernels.HsaKernelDispatchPacket{WorkgroupSizeX: uint16(64 * nWf), WorkgroupSizeY: 1, WorkgroupSizeZ: 1,
 			GridSizeX: uint32(64 * nWf), GridSizeY: 1, GridSizeZ: 1, KernelObject: zzvIBase}
@@ -420,23 +446,23 @@ func VerifSchedule() {
 		rb := protocol.MapWGReqBuilder{}.WithSrc("ACE").WithDst(cu.ToACE.AsRemote()).WithPID(1).WithWG(raw)
 		for i := range raw.Wavefronts {
 			k := len(e.wfs)
-			rb = rb.AddWf(protocol.WfDispatchLocation{Wavefront: raw.Wavefronts[i], SIMDID: k % 4, VGPROffset: 64 * k, SGPROffset: 64 * k})
+			rb = rb.AddWf(protocol.WfDispatchLocation{Wavefront: raw.Wavefronts[i], SIMDID: zzvSIMD(k, oneSIMD), VGPROffset: 64 * k, SGPROffset: 64 * k})
 			w := &zzvWf{id: k, wg: g, entry: zzvIBase + zzvIStep*uint64(k)}
 			w.aA = 0x10000 + 0x100*uint64(k)
 			w.aB, w.aC, w.aS = w.aA+0x40, w.aA+0x80, 0x20000+0x40*uint64(k)
 			tmpl := 0
 			if loading >= maxLoad { // only maxLoad wavefronts of a work-group use memory
-				tmpl = []int{0, 1, 4}[verif.Choice(3)]
+				tmpl = []int{0, 1, 4}[dr.Choice(3)]
 			} else {
-				tmpl = verif.Choice(ntmpl)
+				tmpl = dr.Choice(ntmpl)
 			}
 			simm := uint16(0)
 			if tmpl == 2 || tmpl == 3 || tmpl == 5 {
 				loading++
-				simm = verif.U16()
-				w.lateV, w.lateS = verif.Choice(3), verif.Choice(2) == 1
+				simm = dr.U16()
+				w.lateV, w.lateS = dr.Choice(3), dr.Choice(2) == 1
 			}
-			e.build(w, tmpl, simm, verif.Choice(2))
+			e.build(w, tmpl, simm, dr.Choice(2))
 			e.wfs = append(e.wfs, w)
 		}
 		req := rb.Build()
@@ -472,6 +498,9 @@ func VerifSchedule() {
 	done := false
 	for t := 0; t < T && !done; t++ {
 		progress := cu.Tick()
+		for _, w := range e.wfs {
+			e.trace = append(e.trace, w.wf.PC(), uint64(w.wf.State))
+		}
 		e.checkBarriers()
 		e.serve()
 		if e.deliver(false) {
@@ -508,4 +537,34 @@ func VerifSchedule() {
 		}
 		verif.Assert(w.storesSeen == want, "a wavefront's stores were not all issued exactly once")
 	}
+	return e.trace
+}
+
+func zzvSIMD(k int, one bool) int {
+	if one {
+		return 0
+	}
+	return k % 4
+}
+
+// VerifScheduleMapOrder (C05): the same compute-unit scenario (same programs,
+// same reply lateness) run twice, the second time with every map range of the
+// simulator iterating in a chosen permuted order: the per-tick trace of every
+// wavefront's PC and state must be identical.
+func VerifScheduleMapOrder() {
+	dr := &zzvDraw{}
+	a := zzvScheduleRun(dr)
+	dr.replay, dr.pos = true, 0
+	verif.MapOrder(true)
+	b := zzvScheduleRun(dr)
+	verif.MapOrder(false)
+	same := len(a) == len(b)
+	if same {
+		for i := range a {
+			if a[i] != b[i] {
+				same = false
+			}
+		}
+	}
+	verif.Assert(same, "compute unit: the instruction issue trace depends on map iteration order")
 }
